@@ -996,6 +996,41 @@ func (c *Ctx) ruleConstruction(rule string) {
 		}
 	})
 	c.Check(rule, "NewGenginePool#rbSlice-covers-max", okLen && okMax, f.Pos(), "rbSlice must have poolMaxLen entries and gp.max must be poolMaxLen")
+	// what the constructor set up stays: the rule builder of an instance, and the data context of a
+	// rule builder, are never replaced afterwards (a second builder made over a shared context would put
+	// two instances on one context)
+	if !strings.HasPrefix(rule, "P3") {
+		return // a matter of request isolation (C06), not of the number of instances (C17)
+	}
+	bad, badPos := "", f.Pos()
+	for _, g := range c.AllFns {
+		if g.Pkg == nil || rootOf(g) == f {
+			continue
+		}
+		gx := c.Index(g)
+		eachInstr(g, func(in ssa.Instruction) {
+			st, ok := in.(*ssa.Store)
+			if !ok || bad != "" {
+				return
+			}
+			switch a := st.Addr.(type) {
+			case *ssa.IndexAddr:
+				if _, isRbs := gx.isFieldLoad(a.X, "GenginePool", "rbSlice"); isRbs {
+					bad, badPos = "an element of gp.rbSlice is replaced in "+fnName(rootOf(g)), in.Pos()
+				}
+			case *ssa.FieldAddr:
+				if structName(a.X.Type()) == "RuleBuilder" && fieldOf(a).Name() == "Dc" && fnName(rootOf(g)) != "NewRuleBuilder" {
+					if _, fresh := gx.Origin(a.X).(*ssa.Alloc); !fresh {
+						bad, badPos = "the data context of a rule builder is replaced in "+fnName(rootOf(g)), in.Pos()
+					}
+				}
+				if structName(a.X.Type()) == "GenginePool" && fieldOf(a).Name() == "rbSlice" {
+					bad, badPos = "gp.rbSlice is replaced in "+fnName(rootOf(g)), in.Pos()
+				}
+			}
+		})
+	}
+	c.Check(rule, "instances-keep-their-builder-and-context", bad == "", badPos, "the rule builder of an instance and its data context are set by the constructors only (%s)", orStr(bad, "no other store"))
 }
 
 // wrapperFieldOf: the condition tests one field of a gengineWrapper (a read of it, or an
